@@ -71,8 +71,8 @@ func VerifH_LatePackets() {
 		vrt.Assert(s1.Close() == nil, "RPC 1 closes")
 	}
 	vrt.Quiesce()
+	vrt.Assert(!hx.IsClosedCh(conn.Closed()), "however RPC 1 ended (nothing was in flight), the connection stays open for reuse")
 	if hx.IsClosedCh(conn.Closed()) {
-		vrt.Cover("late-conn-closed")
 		return
 	}
 	feedLate := func() {
@@ -135,8 +135,8 @@ func VerifH_CancelAfterOverlap() {
 	vrt.Assert(s1.Close() == nil, "RPC 1 closes")
 	ctx1.Cancel(context.Canceled)
 	vrt.Quiesce()
+	vrt.Assert(!hx.IsClosedCh(conn.Closed()), "cancelling a call that was already closed leaves the connection open")
 	if hx.IsClosedCh(conn.Closed()) {
-		vrt.Cover("overlap-conn-closed")
 		return
 	}
 	ctx2 := hx.NewCtx()
@@ -287,8 +287,8 @@ func VerifH_ConcurrentInvokes() {
 	vrt.Quiesce()
 	vrt.Assert(dA && dB, "both calls return")
 	vrt.Assert(errA != nil, "the cancelled call fails")
+	vrt.Assert(!hx.IsClosedCh(conn.Closed()), "a soft cancel with no write in flight leaves the connection open")
 	if hx.IsClosedCh(conn.Closed()) {
-		vrt.Cover("invokes-conn-closed")
 		return
 	}
 	vrt.Assert(errB == nil && len(outB) == 1 && outB[0] == 0x43, "the second call succeeds with its own response")
@@ -354,5 +354,134 @@ func VerifH_ManyMessages() {
 	vrt.Assert(done, "the receiver completes")
 	vrt.Assert(okAll, "every message arrives intact and in order, then end-of-stream")
 	vrt.Cover("manymsgs-end")
+	conn.Close()
+}
+
+// invGate parks the write that carries the invoke frame of one stream until released
+// (with a 1-byte writer buffer every frame is written to the transport on its own).
+type invGate struct {
+	*hx.Transport
+	sid     uint64
+	release *bool
+	parked  *bool
+}
+
+func (g invGate) Write(p []byte) (int, error) {
+	_, fr, ok, err := drpcwire.ParseFrame(p)
+	if ok && err == nil && fr.Kind == drpcwire.KindInvoke && fr.ID.Stream == g.sid {
+		*g.parked = true
+		vrt.WaitFor(g.release)
+	}
+	return g.Transport.Write(p)
+}
+
+// VerifH_InvokeBufferIsolation: both cancel modes. Unary call A is cancelled at an arbitrary
+// moment (a separate goroutine, free-running); unary call B starts on the next
+// stream and the write of its invoke frame is held up inside the transport, so that A may
+// encode its request while B is between encoding and sending its own. Whatever the
+// schedule, a request that appears on the wire under a stream id is the request of the
+// call that owns that stream, and a call that succeeds returns the response to its own request.
+func VerifH_InvokeBufferIsolation() {
+	base := &hx.Transport{}
+	release, parked := false, false
+	tr := invGate{Transport: base, sid: 2, release: &release, parked: &parked}
+	conn := NewWithOptions(tr, Options{Manager: drpcmanager.Options{SoftCancel: vrt.Bool("soft"), WriterBufferSize: 1}})
+	enc := hx.ByteEnc{}
+	ctxA := hx.NewCtx()
+	reqA := []byte{0xA0, 0xA1, 0xA2}
+	reqB := []byte{0xB0, 0xB1, 0xB2}
+	var errA, errB error
+	var outA, outB []byte
+	dA, dB := false, false
+	for s := uint64(1); s <= 2; s++ {
+		base.Feed(hx.Pkt(drpcwire.KindMessage, s, 1, false, []byte{byte(0x40 + s)}))
+		base.Feed(hx.Pkt(drpcwire.KindCloseSend, s, 2, false, nil))
+	}
+	go func() { errA = conn.Invoke(ctxA, "a", enc, &reqA, &outA); dA = true }()
+	go func() { ctxA.Cancel(context.Canceled) }()
+	go func() { errB = conn.Invoke(hx.NewCtx(), "b", enc, &reqB, &outB); dB = true }()
+	vrt.Quiesce()
+	release = true
+	vrt.Quiesce()
+	vrt.Assert(dA && dB, "both calls return")
+	if hx.IsClosedCh(conn.Closed()) {
+		vrt.Cover("isolation-conn-closed")
+		return
+	}
+	pkts, ok := hx.ParseOut(base.Out)
+	vrt.Assert(ok, "client output is well-formed")
+	owner := map[uint64]byte{}
+	for _, p := range pkts {
+		if p.Kind == drpcwire.KindInvoke && len(p.Data) == 1 {
+			_, dup := owner[p.Sid]
+			vrt.Tag("duplicate-stream-id", dup)
+			vrt.Assert(!dup, "every call on the connection gets a stream id of its own")
+			owner[p.Sid] = p.Data[0]
+		}
+	}
+	for _, p := range pkts {
+		if p.Kind != drpcwire.KindMessage {
+			continue
+		}
+		switch owner[p.Sid] {
+		case 'a':
+			vrt.Assert(len(p.Data) == 3 && p.Data[0] == 0xA0 && p.Data[1] == 0xA1 && p.Data[2] == 0xA2, "the request sent on A's stream is A's request")
+		case 'b':
+			vrt.Assert(len(p.Data) == 3 && p.Data[0] == 0xB0 && p.Data[1] == 0xB1 && p.Data[2] == 0xB2, "the request sent on B's stream is B's request")
+			vrt.Cover("isolation-b-sent")
+		default:
+			vrt.Assert(false, "a request appears only on a stream that was invoked")
+		}
+	}
+	_, _ = errA, errB
+	vrt.Cover("isolation-end")
+	conn.Close()
+}
+
+// VerifH_CancelAfterFinished: RPC 1 is ended by the peer (half-close answering ours, close
+// or error). A goroutine waits until the stream reports itself finished (its context is
+// done - what a pool or an application waits for before reusing the connection) and only
+// then cancels the call's context. That late cancel concerns a call that is already over:
+// the connection stays open and RPC 2 on it works, in both cancel modes.
+func VerifH_CancelAfterFinished() {
+	tr := &hx.Transport{}
+	conn := NewWithOptions(tr, Options{Manager: drpcmanager.Options{SoftCancel: vrt.Bool("soft")}})
+	enc := hx.ByteEnc{}
+	ctx1 := hx.NewCtx()
+	s1, err := conn.NewStream(ctx1, "rpc1", enc)
+	vrt.Assert(err == nil, "RPC 1 starts")
+	switch vrt.Choice("end", 3) {
+	case 0:
+		vrt.Assert(s1.CloseSend() == nil, "RPC 1 half-closes")
+		tr.Feed(hx.Pkt(drpcwire.KindCloseSend, 1, 1, false, nil))
+	case 1:
+		tr.Feed(hx.Pkt(drpcwire.KindClose, 1, 1, false, nil))
+	case 2:
+		tr.Feed(hx.Pkt(drpcwire.KindError, 1, 1, false, []byte{0, 0, 0, 0, 0, 0, 0, 3, 'e'}))
+	}
+	go func() {
+		<-s1.Context().Done()
+		ctx1.Cancel(context.Canceled)
+	}()
+	vrt.Quiesce()
+	vrt.Assert(hx.IsClosedCh(s1.Context().Done()), "RPC 1 is finished")
+	vrt.Tag("late-cancel-closed-connection", hx.IsClosedCh(conn.Closed()))
+	vrt.Assert(!hx.IsClosedCh(conn.Closed()), "cancelling a call that is already finished leaves the connection open")
+	if hx.IsClosedCh(conn.Closed()) {
+		return
+	}
+	tr.Feed(hx.Pkt(drpcwire.KindMessage, 2, 1, false, []byte{0x42}))
+	s2, err := conn.NewStream(hx.NewCtx(), "rpc2", enc)
+	vrt.Assert(err == nil, "RPC 2 starts on the reused connection")
+	if err != nil {
+		return
+	}
+	var out []byte
+	var rerr error
+	rdone := false
+	go func() { rerr = s2.MsgRecv(&out, enc); rdone = true }()
+	vrt.Quiesce()
+	vrt.Assert(rdone && rerr == nil && len(out) == 1 && out[0] == 0x42, "RPC 2 receives its response")
+	vrt.Cover("cancel-after-finished-end")
 	conn.Close()
 }
